@@ -583,3 +583,30 @@ Proof.
   - reflexivity.
   - apply (is_derive_const (V:=R_NormedModule) 1 2).
 Qed.
+
+(* ---- bessel_j2 itself on 0.25 < x < 5: the recurrence 2 J1(x)/x - J0(x) with both functions on their rational branches, at first order ---- *)
+Lemma j2_rec_R (r : R) : 1 / 4 < r < 5 ->
+  bessel_j2 (T:=R) r = (j1_mid (T:=R) r * (lk (T:=R) L_bessel_j2 2 : R) / r - j0_mid (T:=R) (r * r))%rs.
+Proof.
+  intros [Ha Hb]. pose proof lits_j2 as E2. destruct lits_j0 as [E1 E0]. pose proof lits_j1 as EJ1.
+  assert (Hr : Rabs r = r) by (apply Rabs_pos_eq; lra).
+  unfold bessel_j2. change (std_abs (m_re r : R)) with (Rabs r). change (@hltb R R _) with Rltb. unfold Rltb.
+  destruct (Rlt_dec (Rabs r) (lk (T:=R) L_bessel_j2 0)) as [H|_]; [assert (H' : r < 1 / 4) by (rewrite <- Hr, <- E2; exact H); lra|].
+  unfold j2_rec. rewrite (j1_branch_R r) by (rewrite EJ1, Hr; lra).
+  destruct (j0_branches_R r ltac:(lra)) as [_ [Bm _]]. rewrite Bm by (rewrite E1, E0; lra). reflexivity.
+Qed.
+Theorem j2_derivative_rec_mid t0 v (x : Dual R) : Rep1 t0 v x -> 1 / 4 < v t0 < 5 ->
+  Rep1 t0 (fun t => bessel_j2 (T:=R) (v t)) (bessel_j2 x).
+Proof.
+  intros H [Ha Hb]. pose proof lits_j2 as E2. destruct lits_j0 as [E1 E0]. pose proof lits_j1 as EJ1. pose proof H as [Hre Hd].
+  assert (Hx : m_re x = v t0) by exact Hre.
+  assert (Hr : Rabs (v t0) = v t0) by (apply Rabs_pos_eq; lra).
+  destruct (j2_branches x) as [_ Br]. rewrite Br by (rewrite Hx, Hr, E2; lra).
+  rewrite (j1_branch_Dual x) by (rewrite Hx, EJ1, Hr; lra).
+  destruct (j0_branches x) as [_ [Bm _]]. rewrite Bm by (rewrite Hx, ?E1, ?E0; lra).
+  apply (rep_ext_loc t0 (fun t => (j1_mid (T:=R) (v t) * (lk (T:=R) L_bessel_j2 2 : R) / v t - j0_mid (T:=R) (v t * v t))%rs)).
+  - destruct j2_rec_mid_branch as [B1 _]. apply (B1 t0 v x H). lra.
+  - pose proof (locally_gt v t0 _ _ Hd Ha) as La. pose proof (locally_lt v t0 _ _ Hd Hb) as Lb.
+    apply (filter_imp (fun t => 1 / 4 < v t /\ v t < 5)); [|apply filter_and; assumption].
+    intros t [Ta Tb]. rewrite j2_rec_R by (split; assumption). reflexivity.
+Qed.
